@@ -398,4 +398,55 @@ theorem bitfield_signed_overflow_examples :
     Go.isSignedSumOverflow (BitVec.ofInt 64 (-1)) 1#64 64#64 = false ∧
     Go.isSignedSumOverflow (BitVec.ofInt 64 9223372036854775807) 1#64 64#64 = true := by decide
 
+/-- "is the new value out of bounds?" as `bitfieldWrite` decides it (lines "detect underflow and overflow"),
+    with the helpers as translated from `bitMath.go` -/
+def bfOutOfBoundsGo (signed isSet : Bool) (n value : BitVec 64) (bits : Nat) : Bool :=
+  let newValue := if isSet then value else n + value
+  if signed then
+    (if isSet then Go.isSignedSumOverflow 0#64 value (BitVec.ofNat 64 bits)
+     else Go.isSignedSumOverflow n value (BitVec.ofNat 64 bits))
+  else BitVec.slt newValue 0#64 || Go.isUnsignedOverflow newValue (BitVec.ofNat 64 bits)
+
+/-- … is the `oob` of the model's `bfStep` (quirks off): for a signed field the operand (SET) or the true sum
+    (INCRBY) leaves the field's range; for an unsigned one the new value — the sum wrapped to 64 bits — is
+    negative or does not fit. For every width, every field value of that width and every int64 operand. -/
+theorem bitfield_out_of_bounds_as_coded (signed isSet : Bool) (n value : BitVec 64) (bits : Nat)
+    (h1 : 1 ≤ bits) (hs : signed = true → bits ≤ 64) (hu : signed = false → bits ≤ 63)
+    (hr : signed = true → -(2 : Int) ^ (bits - 1) ≤ n.toInt ∧ n.toInt < (2 : Int) ^ (bits - 1)) :
+    bfOutOfBoundsGo signed isSet n value bits =
+      (if signed then
+         (if isSet then specSignedRange value.toInt bits else specSignedOverflow n.toInt value.toInt bits)
+       else
+         let newValue : Int := if isSet then value.toInt else wrap64 (n.toInt + value.toInt)
+         decide (newValue < 0) || decide (newValue ≥ (2 : Int) ^ bits)) := by
+  unfold bfOutOfBoundsGo
+  cases signed with
+  | true =>
+    simp only [↓reduceIte]
+    cases isSet with
+    | true =>
+      simp only [↓reduceIte]
+      have hp : (0 : Int) < (2 : Int) ^ (bits - 1) := Int.pow_pos (by omega)
+      rw [go_isSignedSumOverflow 0#64 value bits h1 (hs rfl) (by simp)]
+      simp [specSignedOverflow, specSignedRange]
+    | false =>
+      simp only [Bool.false_eq_true, ↓reduceIte]
+      exact go_isSignedSumOverflow n value bits h1 (hs rfl) (hr rfl)
+  | false =>
+    simp only [Bool.false_eq_true, ↓reduceIte]
+    have key : ∀ x : BitVec 64, (BitVec.slt x 0#64 || Go.isUnsignedOverflow x (BitVec.ofNat 64 bits)) =
+        (decide (x.toInt < 0) || decide (x.toInt ≥ (2 : Int) ^ bits)) := by
+      intro x
+      by_cases hx : x.toInt < 0
+      · have : BitVec.slt x 0#64 = true := by simp [BitVec.slt, hx]
+        simp [this, hx]
+      · have hsl : BitVec.slt x 0#64 = false := by simp [BitVec.slt]; omega
+        rw [hsl, go_isUnsignedOverflow x bits h1 (hu rfl) (by omega)]
+        simp [hx]
+    cases isSet with
+    | true => simp only [↓reduceIte]; exact key value
+    | false =>
+      simp only [Bool.false_eq_true, ↓reduceIte]
+      rw [key (n + value), toInt_add_wrap]
+
 end RedisEmu
